@@ -218,6 +218,26 @@ func (g *Gen) Next() Action {
 	case "pose":
 		r.Entity = g.pickEntity(c, 0.7)
 		p := g.pose()
+		// values a streaming client really sends: the pose the entity already
+		// has, one a hair away from it, the origin, and very large ones
+		if c.Sess != nil {
+			if e, ok := c.Sess.Entities[r.Entity]; ok {
+				switch g.R.Intn(12) {
+				case 0, 1:
+					p = e.Pose
+				case 2:
+					p = e.Pose
+					p[g.R.Intn(3)] += 2e-5
+				case 3:
+					p = e.Pose
+					p[3+g.R.Intn(4)] += 1e-6
+				case 4:
+					p = model.Pose{}
+				case 5:
+					p = model.Pose{3e38, -3e38, 1e-38, 1, -1, 0.5, 0}
+				}
+			}
+		}
 		r.Pose = &p
 	case "custom":
 		r.Data = g.body()
